@@ -58,6 +58,10 @@ def gen_trace(seed, world, tier):
         A = {"gen": "gauss", "m": n, "n": n, "seed": s}
     else:
         A = {"gen": "int", "m": n, "n": n, "seed": s}
+    noisy = fam.startswith("herm") and R.random() < 0.15
+    if noisy:
+        # Hermitian only to rounding (what A = B^H B or a symmetrised product looks like)
+        A = {"gen": "add", "a": A, "b": {"gen": "scale", "c": 1e-15, "of": {"gen": "gauss", "m": n, "n": n, "seed": s + 7}}}
     if scale:
         A = {"gen": "scale", "of": A, "c": 10.0 ** scale}
     routine = R.choice(["pi", "pi", "pi", "pinh"])
@@ -67,14 +71,18 @@ def gen_trace(seed, world, tier):
         kw = {"max_iterations": budget, "return_eigenvalue": R.random() < 0.85}
         if R.random() < 0.2:
             kw["tol"] = R.choice([1e-8, 1e-12])
+        if R.random() < 0.12:
+            kw["verbose"] = True
     else:
         fn = "utils.power_iteration_nonhermitian"
         kw = {"max_iterations": R.choice([budget, 3000]), "seed": R.randrange(20),
               "eigenvalue_format": R.choice(["complex", "quaternion"])}
         if R.random() < 0.2:
             kw["block_purify"] = False
+        if R.random() < 0.25:
+            kw["return_vector"] = False
     tags = {"routine": routine, "family": fam, "n": n, "scale": scale, "lam": lam, "budget": kw["max_iterations"],
-            "shape": shape if fam.startswith("herm") else "dense"}
+            "shape": shape if fam.startswith("herm") else "dense", "herm_exact": fam.startswith("herm") and not noisy}
     steps = [{"k": "rng", "op": "seed", "v": R.randrange(10 ** 6), "client": 0}]
     for _ in range(R.randint(0, 2)):
         if R.random() < 0.7:
@@ -145,6 +153,21 @@ class Hooks(BaseHooks):
                 viol.append(V("shape", i, f"vector has shape {getattr(v, 'shape', None)}, expected {(n, 1)}"))
                 return
         else:
+            if kw.get("return_vector") is False:
+                if not (isinstance(val, tuple) and len(val) == 2):
+                    viol.append(V("shape", i, f"expected (eigenvalue, residuals), got {type(val).__name__}"))
+                    return
+                lam_out = val[0]
+                imag = (max(abs(lam_out.x), abs(lam_out.y), abs(lam_out.z)) if isinstance(lam_out, np.quaternion)
+                        else abs(complex(lam_out).imag))
+                if t.get("herm_exact") and imag != 0.0:
+                    viol.append(V("real_eigenvalue", i, f"Hermitian input but eigenvalue {lam_out} has a non-zero imaginary part"))
+                if False and herm_in and t["budget"] >= BIG:
+                    re = lam_out.w if isinstance(lam_out, np.quaternion) else complex(lam_out).real
+                    a1 = abs(t["lam"][0] * (10.0 ** t["scale"]))
+                    if abs(abs(re) - a1) > 1e-8 * a1:
+                        viol.append(V("eigenvalue", i, f"complex-adjoint variant returned {re!r}, |lambda_max| = {a1!r}"))
+                return
             if not (isinstance(val, tuple) and len(val) == 3):
                 viol.append(V("shape", i, f"expected (v, eigenvalue, residuals), got {type(val).__name__}"))
                 return
@@ -163,7 +186,7 @@ class Hooks(BaseHooks):
                 re = complex(lam_out).real
             if herm_in:
                 self.cnt["hermitian_fastpath"] += 1
-                if imag != 0.0:
+                if t.get("herm_exact") and imag != 0.0:
                     viol.append(V("real_eigenvalue", i, f"Hermitian input but eigenvalue {lam_out} has a non-zero imaginary part"))
             else:
                 self.cnt["complex_path"] += 1
@@ -186,8 +209,10 @@ class Hooks(BaseHooks):
             if abs(est - rqm) > 1e-10 * max(nA, 1e-300):
                 viol.append(V("rayleigh", i, f"estimate {est!r} is not |v^H A v| = {rqm!r} of the returned vector "
                                              f"(budget {t['budget']}, {t['family']}, n={n})"))
-        # convergence from every start for the gapped Hermitian family with the large budget
-        if herm_in and t["budget"] >= BIG and n >= 1:
+        # convergence from every start for the gapped Hermitian family with the large budget.
+        # The property states it for the power iteration; of the complex-adjoint variant it
+        # only promises a unit vector and, for Hermitian input, a real eigenvalue.
+        if herm_in and t["budget"] >= BIG and n >= 1 and t["routine"] == "pi":
             lam1 = t["lam"][0] * (10.0 ** t["scale"])
             a1 = abs(lam1)
             if lam1 < 0:
